@@ -84,9 +84,9 @@ Proof.
 Qed.
 
 (* ------------------------------------------------------------------ token-level round trip of the non-instruction lines *)
-Lemma tokens_comment_line : forall raw, parse_toks (toks_line (WLComment raw)) = Parsed (denote (WLComment raw)).
+Lemma tokens_comment_line : forall fx raw, parse_toks fx (toks_line (WLComment raw)) = Parsed (denote (WLComment raw)).
 Proof. reflexivity. Qed.
 
-Lemma tokens_label_line : forall n c, is_ident n = true ->
-  parse_toks (toks_line (WLLabel n c)) = Parsed (denote (WLLabel n c)).
-Proof. intros n c H. destruct c; simpl; rewrite H; reflexivity. Qed.
+Lemma tokens_label_line : forall fx n c, is_ident n = true ->
+  parse_toks fx (toks_line (WLLabel n c)) = Parsed (denote (WLLabel n c)).
+Proof. intros fx n c H. destruct c; simpl; rewrite H; reflexivity. Qed.
